@@ -254,16 +254,20 @@ pub fn in_pool<R: Send>(f: impl FnOnce() -> R + Send) -> R {
 /// per-case watchdog (only for properties that set a case timeout): the case being executed
 static CASE_WATCH: std::sync::Mutex<Option<(Instant, String)>> = std::sync::Mutex::new(None);
 static WATCH_ON: std::sync::atomic::AtomicBool = std::sync::atomic::AtomicBool::new(false);
+/// current limit in milliseconds (a property may change it between sections)
+static WATCH_LIMIT_MS: std::sync::atomic::AtomicU64 = std::sync::atomic::AtomicU64::new(0);
 
 /// Starts the monitor thread of this process: if one case runs longer than `limit_s` the process
 /// prints `SHARD-HANG <case json>` and exits with status 3 (a hang cannot be caught in-process).
 fn arm_watchdog(limit_s: f64, replay_of: Option<(String, String)>) {
+    WATCH_LIMIT_MS.store((limit_s * 1000.0) as u64, std::sync::atomic::Ordering::SeqCst);
     if WATCH_ON.swap(true, std::sync::atomic::Ordering::SeqCst) {
         return;
     }
     std::thread::spawn(move || loop {
         std::thread::sleep(std::time::Duration::from_millis(200));
         let g = CASE_WATCH.lock().unwrap();
+        let limit_s = WATCH_LIMIT_MS.load(std::sync::atomic::Ordering::SeqCst) as f64 / 1000.0;
         if let Some((t0, js)) = g.as_ref() {
             if t0.elapsed().as_secs_f64() > limit_s {
                 println!("SHARD-HANG {js}");
